@@ -307,4 +307,5 @@ harness_run(void)
                                  "iteration: range ending exactly at 2^32", "read much longer than the table" };
     for (size_t i = 0; i < sizeof req / sizeof req[0]; i++)
         vh_require(req[i]);
+    vh_require("callback-backed area with a memory pointer of its own");
 }
